@@ -35,6 +35,8 @@ type RawSpec struct {
 	RequestDelta *model.DeltaModel
 	// NoPatches builds a delta without patches (invalid delta whose hash still matches).
 	NoPatches bool
+	// NoDelta omits the delta member from the request altogether (create only: the request still parses in batch mode).
+	NoDelta bool
 	// CorruptSig flips a bit of the signature.
 	CorruptSig bool
 	// SignedSuffix overrides the DID suffix inside deactivate signed data.
@@ -79,6 +81,10 @@ func BuildRaw(s *RawSpec) ([]byte, error) {
 	reqDelta := delta
 	if s.RequestDelta != nil {
 		reqDelta = s.RequestDelta
+	}
+
+	if s.NoDelta {
+		reqDelta = nil
 	}
 
 	var deltaHash string
